@@ -131,19 +131,38 @@ def run(ctx):
         if a and b and a[0] == b[0]:
             eq_rows.setdefault(a[0], []).append(vdesc)
     he_calls = {callee_name(t).split("::")[-1] for g in P.family(he) for bi, t in g.calls()}
+    hx_e = FlowCx(P, he)
     for v, calls in sorted(arms.items()):
         bitwise = "to_bits" in calls
         elementwise = v in ("List", "Map")
         if not (bitwise or elementwise):
             continue
         ok = v in eq_rows
+        if ok and elementwise:
+            # the element comparison of this arm goes through the wrapper again (not through Value's derived ==)
+            rec = False
+            for bi, b in enumerate(he.blocks):
+                if b["cl"]:
+                    continue
+                for st in b["s"]:
+                    rv = st[1]
+                    if rv[0] == "agg" and rv[1] == "closure" and rv[2] in P.fns:
+                        fa = hx_e.facts_at(bi)
+                        a_ = _variant_of(fa, "param:1")
+                        b_ = _variant_of(fa, "param:2")
+                        if a_ and b_ and a_[0] == v and b_[0] == v:
+                            nested = [P.fns[rv[2]]] + [x for x in P.fns.values() if x.id.startswith(rv[2] + "::{closure")]
+                            for g in nested:
+                                if any(callee_name(t) == he.id for _, t in g.calls()):
+                                    rec = True
+            ok = rec
         if ok and v == "Float64":
             ok = any(r[0] == "cmp" and any(x.endswith("to_bits") for x in r[2]) and any(x.endswith("to_bits") for x in r[3]) for r in eq_rows[v])
         if ok and v == "Vector":
             ok = "to_bits" in he_calls
         ctx.ob("R6", "HashableValue::eq#%s" % v, ok,
                what="HashableValue hashes Value::%s %s but its Eq has no matching arm that compares the same way: equal-by-Eq values "
-                    "can hash differently (or the reverse)" % (v, "by bit pattern" if bitwise else "element-wise through the wrapper"),
+                    "can hash differently (or the reverse)" % (v, "by bit pattern" if bitwise else "element-wise through the wrapper (its Eq must recurse through the wrapper too)"),
                where=he.loc())
 
     # ---- R4 spill codec
